@@ -108,7 +108,7 @@ CLAIMS["C20"] = ("The encodings and the message layer, proof-level. (Kani, full 
 CLAIMS["C08"] = ("Deductive proof (Verus) on the real PruneList code of the representation invariant every translated read depends on: one cache entry per pruned root in position order, "
     "each the prefix sum of the per-root contributions (2*(2^h-1) nodes, 2^h leaves); get_shift/get_leaf_shift/get_total_* return exactly those prefix sums, calculate_next_* extend them, "
     "append_single and cleanup_subtree preserve the invariant and append / truncate the root sequence as specified; plus AppendOnlyFile::discard/rewind (flushed view restored); PMMRBackend::get_data / get_hash / is_compacted: an element or leaf hash is returned only for a position still in the leaf set (prunable MMR), so a removed leaf never reads as present. "
-    "PruneList::append's recursion, is_pruned, the PMMRBackend position translation, file rewriting during compaction, reopen and the chain-level statement are not decided.",
+    "PruneList::append's recursion (its two steps append_single / cleanup_subtree are decided, is_pruned is decided as 'a pruned root itself or inside the next pruned root's subtree'), the PMMRBackend position translation, file rewriting during compaction, reopen and the chain-level statement are not decided.",
     VERUS_TB + "croaring::Bitmap viewed as a sorted sequence with assumed rank/maximum/add/remove_range contracts; node height used through its C07 contract; shift sums assumed to fit u64.",
     "Verus contracts + representation invariant on extracted real functions", "6 C08")
 CLAIMS["C16"] = ("Arithmetic, proof-level (Verus, unbounded): on the real SegmentIdentifier code, for every identifier with height <= 62 and idx*2^height < 2^62 and every mmr_size: the first position is the "
